@@ -134,7 +134,9 @@ func (m *CPU) Run(app risc.Application) (int, error) {
 		}
 		log.Info(m.ctx, "\tRegisters: %v", m.ctx.Registers)
 
-		if ret {
+		// A ret executed in the cycle in which an older branch mispredicts is on
+		// the wrong path: the flush wins
+		if ret && !flush {
 			log.Info(m.ctx, "\t🛑 Return")
 			cycle++
 			m.writeBus.Connect(cycle)
